@@ -31,6 +31,7 @@ type charsetModel struct {
 	bomTable  *ssa.Global
 	boms      []bomEntry
 	bomsOK    bool
+	bomSwitch bool // the BOM lookup is written as explicit byte tests (no table): judged by path conditions
 	plain     *ssa.Function
 	html      *ssa.Function
 	xml       *ssa.Function
@@ -133,6 +134,7 @@ func (m *charsetModel) findDispatch(c *core.Ctx) {
 func (m *charsetModel) findDirect(c *core.Ctx) {
 	tm := tree.Get(c)
 	var host *ssa.Function
+	var extraKeys [][2]interface{}
 	direct := map[*ssa.Call]string{}
 	for _, f := range c.SrcFuncs() {
 		if core.FuncPkg(f) == nil || core.FuncPkg(f).Pkg.Path() != core.PkgRoot {
@@ -147,21 +149,7 @@ func (m *charsetModel) findDirect(c *core.Ctx) {
 			if g == nil || core.FuncPkg(g) == nil || core.FuncPkg(g).Pkg.Path() != core.PkgCharset || len(g.Params) != 1 || !core.IsByteSlice(g.Params[0].Type()) || g.Signature.Results().Len() != 1 || !core.IsString(g.Signature.Results().At(0).Type()) {
 				continue
 			}
-			key, found := "", false
-			for _, de := range core.DominatingConds(call.Block()) {
-				cond, val := core.StripNot(de.Cond, de.Val)
-				bo, ok := cond.(*ssa.BinOp)
-				if !ok || bo.Op != token.EQL || !val {
-					continue
-				}
-				for _, pr := range [][2]ssa.Value{{bo.X, bo.Y}, {bo.Y, bo.X}} {
-					if _, fld, isLd := core.LoadOfField(pr[0]); isLd && fld == tm.FMime {
-						if k, isC := core.ConstString(pr[1]); isC {
-							key, found = k, true
-						}
-					}
-				}
-			}
+			keys, found := typeKeysOf(tm, call.Block())
 			if !found {
 				core.Bail("charset function %s is called by %s outside a test of the node's type", g.Name(), f.Name())
 			}
@@ -169,7 +157,10 @@ func (m *charsetModel) findDirect(c *core.Ctx) {
 				core.Bail("charset functions are called from two functions: %s and %s", host.Name(), f.Name())
 			}
 			host = f
-			direct[call] = key
+			direct[call] = keys[0]
+			for _, k := range keys[1:] {
+				extraKeys = append(extraKeys, [2]interface{}{k, call})
+			}
 		}
 	}
 	if host == nil {
@@ -184,10 +175,57 @@ func (m *charsetModel) findDirect(c *core.Ctx) {
 		}
 		m.sniffers[k] = call.Call.StaticCallee()
 	}
+	for _, ek := range extraKeys {
+		m.sniffers[ek[0].(string)] = ek[1].(*ssa.Call).Call.StaticCallee()
+	}
 	for k := range m.sniffers {
 		m.snifKeys = append(m.snifKeys, k)
 	}
 	sort.Strings(m.snifKeys)
+}
+
+// typeKeysOf: every path into block b passes, as its last type test, the true
+// edge of `<node>.mime == "<constant>"`; returns the constants (a case with
+// several values has several). found is false when some path reaches b
+// without such a test.
+func typeKeysOf(tm *tree.Model, b *ssa.BasicBlock) ([]string, bool) {
+	var keys []string
+	seen := map[*ssa.BasicBlock]bool{}
+	ok := true
+	var back func(x *ssa.BasicBlock, depth int)
+	back = func(x *ssa.BasicBlock, depth int) {
+		if !ok || seen[x] {
+			return
+		}
+		seen[x] = true
+		if len(x.Preds) == 0 || depth > 12 {
+			ok = false
+			return
+		}
+		for _, p := range x.Preds {
+			iff := core.IfOf(p)
+			if iff != nil && p.Succs[0] == x && p.Succs[1] != x {
+				if bo, isBo := iff.Cond.(*ssa.BinOp); isBo && bo.Op == token.EQL {
+					hit := false
+					for _, pr := range [][2]ssa.Value{{bo.X, bo.Y}, {bo.Y, bo.X}} {
+						if _, fld, isLd := core.LoadOfField(pr[0]); isLd && fld == tm.FMime {
+							if k, isC := core.ConstString(pr[1]); isC {
+								keys = append(keys, k)
+								hit = true
+							}
+						}
+					}
+					if hit {
+						continue
+					}
+				}
+			}
+			back(p, depth+1)
+		}
+	}
+	back(b, 0)
+	sort.Strings(keys)
+	return keys, ok && len(keys) > 0
 }
 
 // directKeyBase: for the inline form, the node whose type selects the call.
@@ -371,6 +409,44 @@ func getCharset(c *core.Ctx) *charsetModel {
 	}
 	if m.bomFn != nil {
 		m.boms, m.bomsOK = constBomTable(c, m.bomTable)
+	} else {
+		// hand-written form: a loop-free function of the charset package from the input to constant strings, at
+		// least three of which are names of Unicode byte-order marks
+		for _, f := range c.SrcFuncs() {
+			if core.FuncPkg(f) == nil || core.FuncPkg(f).Pkg.Path() != core.PkgCharset || len(f.Params) != 1 || !core.IsByteSlice(f.Params[0].Type()) || f.Signature.Results().Len() != 1 || !core.IsString(f.Signature.Results().At(0).Type()) {
+				continue
+			}
+			names := map[string]bool{}
+			okConst := true
+			for _, r := range core.Returns(f) {
+				k, isC := core.ConstString(r.Results[0])
+				if !isC {
+					okConst = false
+					break
+				}
+				names[k] = true
+			}
+			loop := false
+			for _, b := range f.Blocks {
+				for _, p := range b.Preds {
+					if b.Dominates(p) {
+						loop = true
+					}
+				}
+			}
+			nMarks := 0
+			for _, w := range wantBOMs {
+				if names[w.name] {
+					nMarks++
+				}
+			}
+			if okConst && !loop && nMarks >= 3 && len(core.Calls(f)) == len(lenCallsOf(f, f.Params[0])) {
+				if m.bomFn != nil {
+					core.Bail("two candidate hand-written BOM lookups: %s, %s", m.bomFn.Name(), f.Name())
+				}
+				m.bomFn, m.bomSwitch = f, true
+			}
+		}
 	}
 	c.Memo["charset"] = m
 	return m
